@@ -260,8 +260,13 @@ def setRowHidden (s : Sheet) (row : Nat) (h : Bool) : Res Sheet :=
 
 /-- setter bodies -/
 def updVal (t v : String) : Content → Content := fun c => { c with t := t, v := v, f := none }
+/-- SetCellFormula: the value stays behind as the cached result; a boolean keeps its type, every
+other cell becomes `t="str"` (a shared string's text is moved into the cell — the model carries
+the text already) -/
 def updFormula (f : String) : Content → Content := fun c =>
-  if f = "" then { c with f := none } else { c with f := some f, t := "str" }
+  if f = "" then { c with f := none }
+  else if c.t = "b" then { c with f := some f }
+  else { c with f := some f, t := "str" }
 def updStyle (s : Nat) : Content → Content := fun c => { c with s := s }
 
 /-! ### cell.go: getCellStringFunc; rows.go: GetRowVisible -/
